@@ -173,3 +173,39 @@ def check_latpar(sg, isSpaceGroupLatPar):
             yield "latpar-accept", "cell %s is invariant under all operations but rejected" % (cell,)
         if sysname in LOWER.get(sg.crystal_system, []) and acc and not inv:
             yield "latpar-reject", "generic %s cell %s accepted" % (sysname.lower(), cell)
+
+
+# ---- affine-invariant type fingerprint (mirrors coq/Model/C03_Type.v) ----------------------------------------------------
+def _mm(a, b):
+    return tuple(sum(a[3 * i + k] * b[3 * k + j] for k in range(3)) for i in range(3) for j in range(3))
+
+
+def _mv(a, v):
+    return tuple(sum(a[3 * i + k] * v[k] for k in range(3)) for i in range(3))
+
+
+def type_fingerprint(ops):
+    """ops: exact operations (R as 9 ints, t as 3 ints in units 1/TS)."""
+    byR = {}
+    for R, t in ops:
+        byR.setdefault(R, []).append(t)
+    out = []
+    for R, ts in byR.items():
+        P, k, acc = R, 1, list(I9)
+        while P != I9 and k < 13:
+            acc = [x + y for x, y in zip(acc, P)]
+            P = _mm(P, R)
+            k += 1
+        sm = tuple(acc)
+        pure = False
+        for t in ts:
+            s0 = _mv(sm, t)
+            for n in itertools.product(range(k), repeat=3):
+                sn = _mv(sm, tuple(TS * x for x in n))
+                if all((a + b) % (TS * k) == 0 for a, b in zip(s0, sn)):
+                    pure = True
+                    break
+            if pure:
+                break
+        out.append((R[0] + R[4] + R[8], det(R), pure))
+    return tuple(sorted(out))
